@@ -103,7 +103,10 @@ def check_epoch(prop: str, res: Result, repo: Repo):
         e2, s2 = md[0][2], md[0][3]
         epoch = TS - e1
         ok_rd = s1 == TF and r.same(epoch + Frac.atom(fd[0]) * TF) and TS not in poly.all_atoms(epoch) or (s1 == TF and r.same(epoch + Frac.atom(fd[0]) * TF))
-        ok_epoch = not any(a == ("sym", "ts") for a in epoch.atoms())
+        # one fixed origin: the epoch may take the timestamp's tzinfo, but must not move with the timestamp or the timeframe (an origin
+        # such as "midnight of the timestamp's day" restarts the grid every day for timeframes that do not divide 24 hours)
+        _ea = poly.all_atoms(epoch) | set(epoch.atoms())
+        ok_epoch = ("sym", "ts") not in _ea and ("sym", "tf") not in _ea and not any(a[0] == "fn" and str(a[1]).startswith(".") for a in _ea)
         if ok_rd and ok_epoch:
             res.ok(rule, {"site": rd.where, "round_down": f"EPOCH + ((ts - EPOCH) // tf) * tf with EPOCH = {epoch!r}"}, nontrivial="rd")
         else:
